@@ -26,7 +26,6 @@ Ltac rbn H En :=
       let a := fresh "a" in
       destruct X as [a| |] eqn:En; cbn [rbind] in H; [|discriminate H|discriminate H]
   end.
-Ltac okinv H := injection H as H; repeat match type of H with _ /\ _ => idtac end.
 
 Lemma rbind_np {A B} (r:res A) (k:A -> res B) :
   r <> Panic -> (forall a, r = Ok a -> k a <> Panic) -> rbind r k <> Panic.
@@ -296,14 +295,16 @@ Proof. induction vs as [|m r IH]; cbn; [reflexivity|]. rewrite lookupN_app, IH. 
 Lemma insert_vars_ok c m r : insert_vars c (m::r) = Ok ((c ++ m)::r).
 Proof. destruct c; reflexivity. Qed.
 
-(* the witness and parameter maps only grow, and an entry is never changed *)
+(* the witness and parameter maps only grow, an entry is never changed, and no name is entered twice *)
 Definition maps_le (s s':st) : Prop :=
   (forall n t, lookupN (wits s) n = Some t -> lookupN (wits s') n = Some t) /\
-  (forall n t, lookupN (params s) n = Some t -> lookupN (params s') n = Some t).
+  (forall n t, lookupN (params s) n = Some t -> lookupN (params s') n = Some t) /\
+  (NoDup (map fst (wits s)) -> NoDup (map fst (wits s'))) /\
+  (NoDup (map fst (params s)) -> NoDup (map fst (params s'))).
 Definition le_st (s s':st) : Prop := maps_le s s' /\ vs_eq (vars s) (vars s').
-Lemma maps_le_refl s : maps_le s s. Proof. split; auto. Qed.
+Lemma maps_le_refl s : maps_le s s. Proof. repeat split; auto. Qed.
 Lemma maps_le_trans a b c : maps_le a b -> maps_le b c -> maps_le a c.
-Proof. intros [H1 H2] [H3 H4]. split; auto. Qed.
+Proof. intros (H1 & H2 & H5 & H6) (H3 & H4 & H7 & H8). repeat split; auto. Qed.
 Lemma le_st_refl s : le_st s s. Proof. split; [apply maps_le_refl|apply vs_eq_refl]. Qed.
 Lemma le_st_trans a b c : le_st a b -> le_st b c -> le_st a c.
 Proof. intros [H1 H2] [H3 H4]. split; [eapply maps_le_trans|eapply vs_eq_trans]; eassumption. Qed.
@@ -330,7 +331,7 @@ Definition good (s:st) : Prop :=
   (forall n t, lookupN (wits s) n = Some t -> W n = Some t) /\
   (forall n t, lookupN (params s) n = Some t -> exists v, args n = Some v /\ value_wf v = true /\ type_of v = t).
 Lemma good_le s s' : maps_le s s' -> good s' -> good s.
-Proof. intros [H1 H2] [H3 H4]. split; auto. Qed.
+Proof. intros (H1 & H2 & _) [H3 H4]. split; auto. Qed.
 Lemma good_same s s' : wits s = wits s' -> params s = params s' -> good s -> good s'.
 Proof. unfold good. intros -> ->. auto. Qed.
 
@@ -578,8 +579,10 @@ Proof.
     rb Heq. injection Heq as <- <-. unfold insert_witness in E. destruct (negb is_main); [discriminate|].
     destruct (lookupN (wits s) n) eqn:El; [discriminate|]. injection E as <-.
     split; [|split; [reflexivity|]].
-    + split; [|apply vs_eq_refl]. split; [|auto]. intros n0 t0 H0. cbn [wits set_wits lookupN].
-      destruct (N.eqb n0 n) eqn:En; [|exact H0]. apply N.eqb_eq in En. subst. congruence.
+    + split; [|apply vs_eq_refl]. split; [|split; [auto|split; [|auto]]].
+      * intros n0 t0 H0. cbn [wits set_wits lookupN].
+        destruct (N.eqb n0 n) eqn:En; [|exact H0]. apply N.eqb_eq in En. subst. congruence.
+      * intros Hnd. cbn [wits set_wits map fst]. constructor; [now apply lookupN_None_notin|exact Hnd].
     + intros _ [Hg _]. cbn [WT.wt]. rewrite (Hg n t); [apply ty_eqb_refl|].
       cbn [wits set_wits lookupN]. now rewrite N.eqb_refl.
   - (* parameter *)
@@ -589,8 +592,10 @@ Proof.
       split; [apply le_st_refl|]. split; [reflexivity|]. intros _ [_ Hg]. cbn [WT.wt].
       destruct (Hg n t El) as (v & -> & Hwf & Hty). rewrite Hwf, Hty, ty_eqb_refl. reflexivity.
     + injection E as <-. split; [|split; [reflexivity|]].
-      * split; [|apply vs_eq_refl]. split; [auto|]. intros n0 t0 H0. cbn [params set_params lookupN].
-        destruct (N.eqb n0 n) eqn:En; [|exact H0]. apply N.eqb_eq in En. subst. congruence.
+      * split; [|apply vs_eq_refl]. split; [auto|split; [|split; [auto|]]].
+        -- intros n0 t0 H0. cbn [params set_params lookupN].
+           destruct (N.eqb n0 n) eqn:En; [|exact H0]. apply N.eqb_eq in En. subst. congruence.
+        -- intros Hnd. cbn [params set_params map fst]. constructor; [now apply lookupN_None_notin|exact Hnd].
       * intros _ [_ Hg]. cbn [WT.wt]. destruct (Hg n t) as (v & -> & Hwf & Hty).
         { cbn [params set_params lookupN]. now rewrite N.eqb_refl. }
         rewrite Hwf, Hty, ty_eqb_refl. reflexivity.
@@ -600,7 +605,7 @@ Proof.
     rb Heq. injection Heq as <- <-. rewrite get_variable_concat in Eg.
     unfold insert_variable in E. destruct (vars s) as [|m r] eqn:Ev; [discriminate|]. injection E as <-.
     split; [|split; [reflexivity|]].
-    + split; [split; auto|]. cbn [vars set_vars]. rewrite Ev. constructor; [apply vs_eq_refl|].
+    + split; [repeat split; auto|]. cbn [vars set_vars]. rewrite Ev. constructor; [apply vs_eq_refl|].
       intros y. cbn [app lookupN]. destruct (N.eqb y x) eqn:Ey; [|reflexivity].
       apply N.eqb_eq in Ey. subst y. cbn [concat] in Eg. now rewrite Eg.
     + intros _ _. cbn [WT.wt]. rewrite Eg. apply ty_eqb_refl.
@@ -764,6 +769,20 @@ Corollary analyze_sound_lookup jlook jsig balias main_name p main ps ws tr args 
   args_consistent args ps ->
   wt_program jsig (lookupN ws) args main = true.
 Proof. intros H Ha. eapply analyze_sound; eauto. Qed.
+Print Assumptions analyze_sound_lookup.
+
+(* the returned parameter and witness maps have pairwise distinct names: every witness name is used
+   exactly once, and the order of the association lists is immaterial *)
+Theorem params_wits_nodup jlook jsig balias main_name p main ps ws tr :
+  analyze_program jlook jsig balias main_name p = Ok (main, ps, ws, tr) ->
+  NoDup (map fst ps) /\ NoDup (map fst ws).
+Proof.
+  unfold analyze_program. intros H. rb H. destruct a as [items g].
+  apply (items_sound jlook jsig balias main_name (fun _ => None) (fun _ => None)) in E as ((_ & _ & Hw & Hp) & _).
+  destruct (mains items) as [|m [|? ?]]; try discriminate. injection H as <- <- <- <-.
+  cbn [wits params g_wits g_params genv0 map] in Hw, Hp. split; [apply Hp|apply Hw]; constructor.
+Qed.
+Print Assumptions params_wits_nodup.
 
 (* ====================================================================================== *)
 (** * Tracked calls: exactly the tracked-kind call sites, every function body once *)
